@@ -163,6 +163,15 @@ pub fn run(ctx: &Ctx, rep: &mut Report) {
             Some(c) => c,
             None => return,
         };
+        // a third of the expressions carry leading options, so that "identical options" is not only
+        // ever compared on the defaults
+        let opt_words: Vec<String> = match i % 6 {
+            0 => vec!["-depth".into()],
+            1 => vec!["-threads".into(), format!("{}", 1 + i % 9)],
+            2 => vec!["-threads".into(), format!("{}", i % 5), "-depth".into()],
+            _ => vec![],
+        };
+        let canonical = if opt_words.is_empty() { canonical } else { format!("{} {}", opt_words.join(" "), canonical) };
         let base = match parse_g(&canonical) {
             Ok(Ok(v)) => v,
             Ok(Err(_)) => {
@@ -177,6 +186,9 @@ pub fn run(ctx: &Ctx, rep: &mut Report) {
         if base.1 != e {
             rep.count("canonical_tree_differs"); // C05/C01's subject
             return;
+        }
+        if !opt_words.is_empty() {
+            rep.count("expressions_with_leading_options");
         }
         for k in 0..variants {
             let mut vr = Rng::for_case(ctx.seed ^ 0x77, "variant", i * 1000 + k);
@@ -196,6 +208,15 @@ pub fn run(ctx: &Ctx, rep: &mut Report) {
             if var.r.chance(1, 8) {
                 let layers = 1 + var.r.below(2);
                 text = var.wrap(text, layers);
+            }
+            // leading options stay outside any parentheses (inside they would count as -true: C13)
+            if !opt_words.is_empty() {
+                let mut pre = String::new();
+                for w in &opt_words {
+                    pre.push_str(w);
+                    pre.push_str(&var.sep());
+                }
+                text = format!("{}{}", pre, text);
             }
             let axes = var.axes.iter().filter(|b| **b).count();
             rep.evaluations += 1;
